@@ -25,7 +25,8 @@ reg('C05', 'fault_enumeration',
     'Every residue of bytes already delivered (quick: 100, thorough: all 1012) x three chunkings x every next read size '
     '1..2024 on 1-, 2-, 3- and 5-block files (one with a short last chunk), read() with no size at every residue, seeded '
     'long sequences (size 0 and reads up to 2 MiB included), files of 70, 200 and 2 300 blocks with unsized reads on them; unblock_1014 is fed every truncation length of 1..4-block files and every wrong value of every trailer '
-    'byte. Each returned slice is compared with the reference payload stream. Held on the executions produced.',
+    'byte, on position-coded payloads and on payloads holding whole blocks of the fill byte (the EBCDIC blank).'
+    '  Each returned slice is compared with the reference payload stream. Held on the executions produced.',
     'Trusts vmon/ref/blocking.py and io.BytesIO. Read sizes 0/negative are outside the statement; read(None) judged only if it returns.')
 
 reg('C03', 'exploration',
@@ -33,7 +34,7 @@ reg('C03', 'exploration',
     'Every record length 1..6000 (single-record files, blocked and unblocked, class and convenience APIs) is enumerated in '
     'both tiers; multi-record lists put a length prefix or record end on every offset within +-4 of a 1012-byte payload '
     'boundary; content classes include 0x00/0x40 runs. File bytes are compared with ref.vbs / the blocked payload model and the '
-    'records read back (from the real and from the reference file, the reader walked in eight styles incl. next-then-for and for/break/for) with the input; the live MAX_VBS_RECORD_LENGTH is also set to 3 000 / 6 500 / 10 000 at run time with records at the new maximum. Held on the executions produced.',
+    'records read back (from the real and from the reference file, five writer idioms incl. close inside a with block; the reader walked in eight styles incl. next-then-for and for/break/for) with the input; the live MAX_VBS_RECORD_LENGTH is also set to 3 000 / 6 500 / 10 000 at run time with records at the new maximum. Held on the executions produced.',
     'Trusts vmon/ref/blocking.py, io.BytesIO. Records are non-empty and at most 6000 bytes.')
 
 reg('C09', 'fault_enumeration',
@@ -75,8 +76,8 @@ reg('C14', 'exploration',
     'runtime monitor: real PVV/KCV/key-combination functions compared with a from-scratch TDES reference; second-scan cases constructed backwards from chosen ciphertexts; metamorphic permutation/duplicate checks',
     'PIN 4..12 x PAN 13..19 x key lengths 8/16/24 x key index 0..9 through calculate_pvv and both mix-in routes; cases built '
     'backwards from a chosen ciphertext so that the second decimalisation scan supplies exactly 0,1,2,3 and 4 digits (a run '
-    'missing any d is inconclusive); component lists of 2..5 parts of 8, 16 and 24 bytes with every permutation and a duplicated '
-    'component; KCV lengths 1..16; encrypted zone keys under 16/24-byte master keys.',
+    'missing any d is inconclusive); component lists of 2..5 parts of 8, 16 and 24 bytes with every permutation, a duplicated '
+    'component, and the same components given once more after an earlier call in the same process; KCV lengths 1..16; encrypted zone keys under 16/24-byte master keys.',
     'Trusts vmon/ref/crypto.py and vmon/ref/cards.py; cryptography is used only to search for plaintexts, never to judge.')
 
 reg('C01', 'exploration',
@@ -111,7 +112,7 @@ reg('C16', 'exploration',
     'seeded Latin-1 ones. Decode: the processor is placed on each variable-length (and each wide fixed-width) text element of the packaged configuration in '
     'turn (and on generated configurations), latin_1 / cp500 / cp037, through loads, IpmReader and blocked IpmReader; the '
     'element must come back masked / as its nine-character prefix and the clear number (whole, without check digit, middle '
-    'digits; as text, bytes or hex) must occur in no value of the returned dict; card numbers with separators or letters, and masking switched on in a configuration object that was already used for a decode, are part of every run. Held on the executions produced.',
+    'digits; as text, bytes or hex) must occur in no value of the returned dict; card numbers with separators, letters, line ends and other control characters (20 special characters x 8 positions x every length for mask()), and masking switched on in a configuration object that was already used for a decode, are part of every run. Held on the executions produced.',
     'Trusts vmon/ref/codec.py encoder and vmon/ref/blocking.py to build the inputs. Other elements are letters-only so a hit is a leak.')
 
 reg('C17', 'exploration',
@@ -119,8 +120,8 @@ reg('C17', 'exploration',
     'Message lists are sized so blocked files have exactly 1,2,...,12 blocks (each enumerated) and 50/53/64, first record small, '
     'large, spanning the first block boundary, longer than the 2 500-byte sample, and a shape with 0x40-character text everywhere '
     'except under offset 1012; MTI digits varied, x {latin_1, ascii, cp1252, cp500, cp037, cp1140} x {VBS, '
-    '1014}. Invalid classes: every length 0..23, the 24-byte header, first length max / max+1 (also with the configured maximum changed at run time to 24, 3 000 and 9 000), every bit 2..128 alone in the '
-    'first bitmap. Unblocked files with 0x40 0x40 at bytes 1012-1013 are not judged on the blocking answer.',
+    '1014}. Invalid classes: every length 0..23, the 24-byte header, first length max / max+1 (also with the configured maximum changed at run time to 24, 3 000 and 9 000), every bit 2..128 in the '
+    'first bitmap (alone and next to configured elements, bit 1 on and off). Unblocked files with 0x40 0x40 at bytes 1012-1013 are not judged on the blocking answer.',
     'Files come from the real IpmWriter under the packaged configuration; vmon/ref/codec.py is used only to size them.')
 
 reg('C07', 'fault_enumeration',
@@ -130,7 +131,7 @@ reg('C07', 'fault_enumeration',
     'all 256 values, every length field rewritten to negative / zero / at-over-far-over spellings, the content of every typed element replaced by 35 special words (NaN, Infinity, exponents, impossible dates), truncation at every offset, '
     'seeded multi-point mutation, random byte strings; the same at file level (record prefixes, block trailers, terminator, '
     'embedded message faults) through both readers and both extraction tools in-process, and the two extraction commands as real '
-    'processes (no traceback on stderr), three tools incl. mideu convert, also on valid-but-awkward files (carriers that are full after sorting, non-numeric PDS tags), 23 ICC tails on every DE55; CPU time for 8 MB vs 1 MB of the same records must scale under 24x. Non-termination is decided as bounded '
+    'processes (no traceback on stderr), three tools incl. mideu convert, also on valid-but-awkward files (carriers that are full after sorting, non-numeric PDS tags), 23 ICC tails and BER long-form lengths (0x81..0x84 with values pointing back at the tag, at the length byte, nowhere, far ahead) on every DE55; paramconv among the tools; CPU time for 8 MB vs 1 MB of the same records must scale under 24x. Non-termination is decided as bounded '
     'progress (20 000 + 100 executed cardutil lines per input byte), not wall-clock.',
     'Bounded progress stands in for termination (worst legitimate path measured < 10 lines/byte). vmon/ref/codec.py lays out the bases. '
     'A hang inside C code that emits no line events would only trip the per-shard wall-clock watchdog (inconclusive).')
@@ -140,15 +141,15 @@ reg('C08', 'fault_enumeration',
     'For 160 (quick) / 3 000 (thorough) valid bases (packaged, variant and generated configurations; latin_1, cp500, cp864, '
     'ascii; both bitmaps): every length-prefix digit replaced by sign/space/underscore/letter/every digit/non-ASCII digits, '
     'every prefix rewritten (negative spellings, 0, one short, one over, message length, maximum), hex bitmaps respelled (0x, signs, blanks, underscores), utf-8 among the codecs, 25 fresh valid messages per base, each of the 128 bitmap bits '
-    'flipped, every variable element emptied (must still be accepted), trims/extensions, multi-point mutation; plus thousands of '
-    'constructed messages that a negative-length-tolerant decoder would tile exactly. strict accepts => must accept with that '
+    'flipped (and bit 1 cleared together with each bit above 64, with and without the upper elements\' bytes), every variable element emptied (must still be accepted), trims/extensions, multi-point mutation; plus thousands of '
+    'constructed messages that a negative-length-tolerant decoder would tile exactly (negative prefixes spelled with and without white space around the sign). strict accepts => must accept with that '
     'dict; lenient rejects => must reject; in between, accepted readings must equal the lenient element values.',
     'Trusts vmon/ref/codec.py strict/lenient decoders. A non-library exception counts as a rejection here (reported by C07).')
 
 reg('C10', 'fault_enumeration',
     'runtime monitor: real IpmReader and the extraction tool run on files whose k-th record carries an injected fault; records delivered, exception attributes and the operator line observed for every k',
     'n = 1..10 (quick) / 1..12, 17, 25, 40 (thorough) records x every position k x eight ways of walking the reader x nine fault kinds (truncated record, oversized '
-    'length, undecodable MTI (a quarter of the lists with records over 2 KB so the whole context is checked), unknown bitmap bit, bad field length, bad typed value, bad PDS content, bad ICC content, trailing '
+    'length, undecodable MTI (a quarter of the lists with records over 2 KB; truncation points: anywhere, straight after the length prefix, on a fill byte of a block, after two fill-valued data bytes; the context of a truncated record must be all its surviving bytes), unknown bitmap bit, bad field length, bad typed value, bad PDS content, bad ICC content, trailing '
     'bytes) x {VBS, 1014} x {latin_1, cp500}: exactly k-1 records equal to the strict reference decode, MciIpmDataError with '
     'record_number == k and binary_context_data == prefix + raw bytes of record k, and "Error detected in record k" printed by '
     'mci_ipm_to_csv run in-process on the same file.',
@@ -160,7 +161,7 @@ reg('C06', 'exploration',
     'codecs), VBS and 1014, packaged / variant / generated configurations, three writer APIs: file bytes equal the reference '
     'framing of the reference encodings, and the read-back list satisfies the C01 relation element-wise. Isolation: 2..4 reader '
     'and writer programs (some readers hit an injected fault) driven under seeded schedules at operation granularity, and 8 '
-    'threads with a 1 microsecond switch interval; 32 (thorough 192) fresh child processes whose first cardutil calls are the first records of 8 threads; a reader reading through another reader and a reader parked in its source while others must progress; two round trips of more than 1 and 2 MiB; throwaway configuration copies; each instance\'s trace (records, record_number, last_record, error context, '
+    'threads with a 1 microsecond switch interval; 32 (thorough 192) fresh child processes whose first cardutil calls are the first records of 8 threads; a reader reading through another reader and a reader parked in its source while others must progress; two round trips of more than 1 and 2 MiB; throwaway configuration copies; files in which a blank fixed element makes one whole 1014 block equal to the fill; each instance\'s trace (records, record_number, last_record, error context, '
     'file bytes) must equal its solo trace. The run is inconclusive unless thread alternations were actually observed.',
     'Trusts vmon/ref/codec.py and vmon/ref/blocking.py. Each thread owns its files and message objects. Per-thread step counters.')
 
@@ -169,7 +170,7 @@ reg('C18', 'exploration',
     'Extract files with 1..6 tables (the four packaged layouts and generated contiguous / gapped / single-column layouts, including '
     'table ids that differ only in their last characters), random index assignments (also two sub-ids for one table), 0..40 '
     'rows per table interleaved, half of the generated layouts listing their columns out of positional order (some rows trimmed part-way through a column, some behind 3 000 rows of another table), unindexed / unconfigured noise rows and per-table trailers, x {compressed, expanded} x {latin_1, '
-    'cp500} x {VBS, 1014}, every table of every file requested through the class or the CSV tool; compressed and expanded must '
+    'cp500} x {VBS, 1014}, every table of every file requested through the class, the CSV function or the CSV command (its own argument parser, real files, a configuration file); compressed and expanded must '
     'agree on every column; missing index trailer / unconfigured table must raise MciIpmDataError.',
     'Trusts vmon/ref/param.py (validated against the literal rows in the repository tests), vmon/ref/blocking.py and the csv module.')
 
@@ -178,7 +179,7 @@ reg('C19', 'exploration',
     'All 6 ordered pairs of {latin_1, cp500, cp037} x {vbs,1014}^2 for mci_ipm_encode and mci_ipm_param_encode, both fixed '
     'directions x {blocked, unblocked} for mideu convert and paramconv, 12 (quick) / 150 (thorough) repetitions with fresh '
     'message lists (PDS entries, raw carriers, binary DE55, typed elements, all element subsets) and arbitrary-byte parameter '
-    'records, one input of more than 1 MiB per tool runs with the documented default arguments and with the derived output name (input must stay unchanged): record count, order and values preserved (DE55 byte-identical), output well blocked, and the return conversion '
+    'records (a third of the unblocked ones blank-padded with fill-valued bytes where a blocked file has its fill), one input of more than 1 MiB per tool runs with the documented default arguments and with the derived output name (input must stay unchanged): record count, order and values preserved (DE55 byte-identical), output well blocked, and the return conversion '
     'reproduces the input file byte for byte.',
     'Trusts vmon/ref/codec.py, vmon/ref/blocking.py; the three codecs are checked to be Latin-1 bijections at run time. For the '
     'legacy converter PDS data are library-packed (it re-packs PDS with the default configuration).')
@@ -188,7 +189,7 @@ reg('C20', 'exploration',
     '1 200 (quick) / 20 000 (thorough) tables of 1..50 (thorough ..400) rows over every supplied column of the configured output '
     'list (MTI, 28 data elements, 6 PDS columns): all columns, subsets, PDS only, PDS with other elements, cells with commas, '
     'quotes, leading/trailing/only spaces, 0 and maximum numbers, PDS cells whose packed length crosses the 999-character carrier '
-    'boundary, words that tooling treats specially (NULL, None, nan, TRUE, 007, ...), space-heavy unblocked EBCDIC layouts, '
+    'boundary, words that tooling treats specially (NULL, None, nan, TRUE, 007, ...), space-heavy unblocked EBCDIC layouts, blocked tables tuned so that a record over 1 012 bytes ends exactly on a payload boundary, '
     'dates across the two-digit-year window (plus a class of '
     'non-canonical date spellings compared after normalisation) x {latin_1, cp500, cp037} x {blocked, unblocked}.',
     'Trusts the csv module. Derived/output-only columns, DE48 together with PDS columns, and cells with line breaks or control '
